@@ -366,6 +366,11 @@ def run(rep):
     for i, sp in enumerate(specs(rep.tier)):
         for ci, _ in enumerate(sp.configs()):
             jobs.append((run_spec, (i, depth, T, rep.tier, ci)))
+    # layers have no setters of their own: every component of a layer that has already run is resized through its batchsz setter,
+    # the layer is cleared, and it must then behave like a freshly constructed one (shared with C11)
+    import checks.c11_batch as c11
+    for lname in ("serial", "biclique", "recurrent"):
+        jobs.append((c11.independence_shard, ("layer", (lname,), 2, (2,), "rerun")))
     tally = run_shards(jobs, seed=rep.seed)
     rep.tally.merge(tally)
     c = tally.counts
